@@ -70,6 +70,11 @@ class Hooks(W.Hooks):
                 return ctx.fail(f"{si.kind}/{si.op}/held-row-changed",
                                 f"step {step}: a row taken earlier by indexing table entry {tid} showed {was}, now shows {now}")
             for acc, val in by_name.items():
+                if acc == "<schema>":
+                    if W._sch(row) != val:
+                        return ctx.fail(f"{si.kind}/{si.op}/held-row-changed-dtype",
+                                        f"step {step}: a row taken earlier from table entry {tid} reported {val}, now {W._sch(row)}")
+                    continue
                 try:
                     cur = W.freeze(getattr(row, acc))
                 except Exception as e:  # noqa: BLE001
